@@ -8,7 +8,7 @@ from props.common import account, diff_run
 
 COARS = ac.COARSENINGS
 DRIVERS = ["amgd_%s@poison" % c for c in COARS] + ["amg_%s@poison" % c for c in COARS] + ["amgd_%s@asan" % c for c in COARS] + \
-          ["own", "own@asan", "ll2", "ll2@poison", "ll2@asan", "ub@poison"]
+          ["own", "own@asan", "ll2", "ll2@poison", "ll2@asan", "ub@poison", "relaxfill@poison", "relaxfill@asan"]
 EXTRA_FLAGS = {"@poison": ["-DVQ_POISON"],
                "@asan": ["-fsanitize=address,undefined", "-fno-sanitize-recover=all", "-fno-omit-frame-pointer", "-g"],
                "own@asan": ["-DOWN_NO_TRACKER"]}
@@ -21,9 +21,11 @@ ASSUMPTIONS = [
     "memory safety is checked by AddressSanitizer/UndefinedBehaviourSanitizer runs of the harness on the generated and the listed degenerate inputs (a test, reported as such); the Coq theorems cover junk-independence of the modelled kernels, the bounds-checked re-statements of spmv/residual/CRS construction/transpose (coq/LowLevel.v, coq/LowLevelT.v), the array-level models with unwritten cells of sort_row/sort_rows, spgemm_saad, diagonal + plain_aggregates, tentative_prolongation (no null space), the ilu0 constructor and skyline_lu after its ordering (coq/LowLevel2*.v) and the crs::own_data state machine (coq/Own.v) only",
     "array-level models (C10-A2'): one thread (the OpenMP loops of spgemm_saad / plain_aggregates are modelled sequentially; a 3-thread run of the same cases is compared with the one-thread model as a test); int / ptrdiff_t are unbounded Z / nat (no overflow); std::vector<T>(n) and vector::resize are value-initialised, only new T[n] (crs::set_size / set_nonzeros, numa_vector(n, false)) yields unwritten cells; max_neib/reserve of plain_aggregates is not modelled; the double instantiations of ilu0 and skyline_lu have no exact model line (self-consistency across heap fills and ASan only); the permutation used by the skyline model is the extracted CuthillMcKee.cuthill_mckee (tied by C16)",
     "uninitialised output buffers: write-only outputs are numa_vector<double>(n, false) obtained from the poisoning operator new[]; 'bitwise identical' is judged on the printed 64-bit patterns of the result vectors under the fills 00 / FF (NaN pattern) / AA / pseudo-random",
+    "larger fill (op rf, harness/drv_relaxfill.cpp): relaxation constructors + sweeps on n = 36..80 matrices with up to 27 entries per row under ASan+UBSan and under an allocator that "
+    "fills fresh AND released blocks (fills 00 / FF / AA / pseudo-random, bit patterns of the sweep results compared); a test, no model; only operator new / delete are intercepted",
     "crs::own_data (C10-A3): ptr/col/val are modelled as one block unit (set_nonzeros(n, need_values=false), which leaves val null, is outside the model); the tracking allocator of harness/drv_own.cpp sees operator new[]/delete[] only; object lifetimes are those of the driver's std::map<int, shared_ptr<crs>>",
 ]
-RULE = "crs::own_data: op sequences (construct / zero_copy view / copy / move / copy-assign / move-assign / destroy, ids 0..4) on amgcl::backend::crs<double> under a tracking allocator and under ASan+LSan vs the extracted Own.step; non-trivial = the sequence contains an effective copy/move between two objects.  Array-level kernels (ll_/lld_ ops: sort_rows, spgemm_saad, plain_aggregates, tentative_prolongation, ilu0, skyline_lu; exact rationals and small-integer doubles; fixed degenerate inputs 0x0, 1x1, empty rows, diagonal, duplicates, positive off-diagonals, disconnected blocks, missing diagonal with an upper entry, zero pivots + generated ones): raw result arrays of amgcl vs the arrays of the extracted LowLevel2 models, again under 3-5 heap fills, under ASan+UBSan and with 3 OpenMP threads; non-trivial = a result with at least one stored entry.  Uninitialised output buffers (ub_ ops: spmv/residual/copy/clear/axpby/axpbypcz/vmul with zero coefficient, as_preconditioner<9 relaxations>::apply, amg::apply for 6 coarsening x relaxation pairs): 4 heap fills, bit patterns compared; non-trivial = a non-zero word in the output.  amg hierarchies (4 coarsenings x 5 relaxations) on generated SPD/non-symmetric systems and a fixed list of degenerate inputs (1x1, diagonal, disconnected, positive off-diagonals, n <= coarse_enough, max_levels = 1), each run under several heap fill patterns (double and exact builds) and under ASan+UBSan; non-trivial = non-zero output"
+RULE = "crs::own_data: op sequences (construct / zero_copy view / copy / move / copy-assign / move-assign / destroy, ids 0..4) on amgcl::backend::crs<double> under a tracking allocator and under ASan+LSan vs the extracted Own.step; non-trivial = the sequence contains an effective copy/move between two objects.  Array-level kernels (ll_/lld_ ops: sort_rows, spgemm_saad, plain_aggregates, tentative_prolongation, ilu0, skyline_lu; exact rationals and small-integer doubles; fixed degenerate inputs 0x0, 1x1, empty rows, diagonal, duplicates, positive off-diagonals, disconnected blocks, missing diagonal with an upper entry, zero pivots + generated ones): raw result arrays of amgcl vs the arrays of the extracted LowLevel2 models, again under 3-5 heap fills, under ASan+UBSan and with 3 OpenMP threads; non-trivial = a result with at least one stored entry.  Uninitialised output buffers (ub_ ops: spmv/residual/copy/clear/axpby/axpbypcz/vmul with zero coefficient, as_preconditioner<9 relaxations>::apply, amg::apply for 6 coarsening x relaxation pairs): 4 heap fills, bit patterns compared; non-trivial = a non-zero word in the output.  Larger fill (rf ops: constructor + apply_pre + apply_post + apply of damped_jacobi, spai0, spai1, gauss_seidel, ilu0, iluk k=1..4, ilup k=1..2, ilut p=2|4, chebyshev on 2-D 9-point, 3-D 7-/27-point and random sparse SPD matrices, n = 36..80): ASan+UBSan build and 4 heap fills of fresh and released blocks, bit patterns compared; non-trivial = a non-zero word in the output.  amg hierarchies (4 coarsenings x 5 relaxations) on generated SPD/non-symmetric systems and a fixed list of degenerate inputs (1x1, diagonal, disconnected, positive off-diagonals, n <= coarse_enough, max_levels = 1), each run under several heap fill patterns (double and exact builds) and under ASan+UBSan; non-trivial = non-zero output"
 
 def degenerate(r):
     """(name, n, rows) -- the degenerate inputs named by the property"""
@@ -438,6 +440,118 @@ def run_ub(ctx, lines):
                               theorem="C10: a write-only output depends on what the unwritten buffer held (bit patterns differ, heap fill %s vs %s)" % (UB_FILLS[j], UB_FILLS[0])))
     return fails
 
+# ------------------------------------------------------------------ C10: larger fill under ASan + poison
+# Every relaxation constructor and sweeps of the constructed object on matrices with n = 30..80 and 6..27 entries per row:
+# the working rows / fill-in of the incomplete factorisations (iluk k up to 4, ilup, ilut) grow far beyond the initial
+# capacity of their containers; harness/drv_relaxfill.cpp, builds @asan (any sanitizer report = CRASH) and @poison (its own
+# allocator fills fresh AND released blocks; the four fills must give bitwise identical results).
+RF_RELAX = [("damped_jacobi", 0), ("spai0", 0), ("spai1", 0), ("gauss_seidel", 0), ("ilu0", 0), ("iluk", 1), ("iluk", 2), ("iluk", 3), ("iluk", 4),
+            ("ilup", 1), ("ilup", 2), ("ilut", 2), ("ilut", 4), ("chebyshev", 0)]
+RF_FILLS = ["00", "FF", "AA", "rand"]
+
+def _stencil_rows(r, dims, full):
+    """SPD M-matrix of a 2-D / 3-D grid: 5/9-point (2-D) resp. 7/27-point (3-D) stencil, slightly varying coefficients"""
+    import itertools
+    idx = {c: i for i, c in enumerate(itertools.product(*[range(d) for d in dims]))}
+    n = len(idx); w = {}
+    for c, i in idx.items():
+        for off in itertools.product(*[(-1, 0, 1)] * len(dims)):
+            if all(o == 0 for o in off): continue
+            if not full and sum(abs(o) for o in off) != 1: continue
+            d = tuple(a + o for a, o in zip(c, off))
+            j = idx.get(d)
+            if j is None or j < i: continue
+            w[(i, j)] = F(r.choice([1, 1, 1, 2, 3]), r.choice([1, 1, 2, 4]))
+    rows = [dict() for _ in range(n)]; diag = [F(0)] * n
+    for (i, j), v in w.items():
+        rows[i][j] = -v; rows[j][i] = -v; diag[i] += v; diag[j] += v
+    for i in range(n): rows[i][i] = diag[i] + F(r.choice([0, 0, 1, 1, 2]), r.choice([1, 2, 8])) + (F(1, 4) if i == 0 else 0)
+    return n, [sorted(rw.items()) for rw in rows]
+
+def _random_spd_rows(r, n, per_row):
+    """random sparse symmetric strictly diagonally dominant matrix with about per_row entries per row (both signs)"""
+    rows = [dict() for _ in range(n)]
+    for i in range(n):
+        need = max(0, (per_row - 1) // 2)
+        for j in r.sample([c for c in range(n) if c != i], min(n - 1, need)):
+            v = F(r.choice([-3, -2, -1, -1, -1, 1, 2]), r.choice([1, 2, 4]))
+            rows[i][j] = v; rows[j][i] = v
+    for i in range(n):
+        rows[i][i] = sum(abs(v) for c, v in rows[i].items()) + F(r.choice([1, 2, 3]), r.choice([1, 2]))
+    return [sorted(rw.items()) for rw in rows]
+
+def rf_matrices(r, tier):
+    quick = tier == "quick"
+    out = []
+    g2 = [(6, 6), (8, 9)] if quick else [(5, 6), (6, 6), (7, 8), (8, 9), (5, 16), (8, 10)]
+    g3 = [(4, 4, 4), (3, 4, 5)] if quick else [(3, 3, 4), (4, 4, 4), (3, 4, 5), (3, 5, 5), (4, 4, 5)]
+    g27 = [(3, 3, 4), (4, 4, 4)] if quick else [(3, 3, 4), (4, 4, 4), (3, 4, 5), (3, 3, 8)]
+    for d in g2: out.append(("grid2d9 %dx%d" % d,) + _stencil_rows(r, d, True))
+    for d in g3: out.append(("grid3d7 %dx%dx%d" % d,) + _stencil_rows(r, d, False))
+    for d in g27: out.append(("grid3d27 %dx%dx%d" % d,) + _stencil_rows(r, d, True))
+    for n, pr in ([(40, 8), (80, 12), (60, 6)] if quick else [(30, 6), (40, 8), (50, 10), (60, 6), (80, 12), (80, 9), (70, 12)]):
+        out.append(("random-spd n=%d ~%d/row" % (n, pr), n, _random_spd_rows(r, n, pr)))
+    return out
+
+def rf_cases(tier, seed):
+    from vcheck import fmt_vec
+    r = random.Random(seed * 1000 + 410)
+    out = []; k = 0
+    for name, n, rows in rf_matrices(r, tier):
+        rhs = [F(r.randint(-9, 9), r.choice([1, 2, 4])) for _ in range(n)]
+        x0 = [F(r.randint(-4, 4), r.choice([1, 2])) for _ in range(n)]
+        for rx, p in RF_RELAX:
+            out.append("R%d rf %s %d %s %s %s" % (k, rx, p, _crs(n, n, rows), fmt_vec(rhs), fmt_vec(x0))); k += 1
+    return out
+
+def run_rf(ctx, lines):
+    def site(l):
+        tk = l.split(" ", 4); return "relaxfill/%s%s" % (tk[2], ("(%s)" % tk[3]) if tk[2] in ("iluk", "ilup", "ilut") else "")
+    def complete(exe, env, first):
+        """a report / crash loses the rest of its shard: re-run the unanswered cases"""
+        res = first
+        for _round in range(40):
+            missing = [l for l in lines if res.get(l.split(" ", 1)[0]) is None]
+            if not missing: break
+            more = ctx["run_driver"](ctx["cpp"][exe], missing, env_extra=env, shards=min(32, len(missing)), timeout=1500)
+            if not more: break
+            res.update(more)
+        return res
+    res = {}
+    for fl in RF_FILLS:
+        env = {"VQ_POISON_FILL": fl}
+        res[fl] = complete("relaxfill@poison", env, ctx["run_driver"](ctx["cpp"]["relaxfill@poison"], lines, env_extra=env, shards=8, timeout=1500))
+    def nontrivial(op, payload, impl_out):
+        return impl_out is not None and impl_out.startswith("[") and bool(impl_out.replace("0", "").replace("[", "").replace("]", "").strip())
+    account(ctx, lines, res[RF_FILLS[0]], nontrivial)
+    fails = []
+    for l in lines:
+        cid, op = l.split(" ", 2)[:2]
+        outs = [res[fl].get(cid) for fl in RF_FILLS]
+        ctx["stats"]["oracle_checks"] += 1
+        if any(o is None or o.startswith(("CRASH", "UNSUPPORTED", "EXC")) for o in outs):
+            fails.append(dict(kind="counterexample", case=l, impl=str(outs)[:1500], model=None, op=op, size=len(l), build="relaxfill-poison", site=site(l),
+                              input_class="larger-fill", theorem="C10: relaxation constructor / sweep crashed or threw on a valid SPD matrix under the poisoning allocator (fills %s)" % RF_FILLS))
+        elif len(set(outs)) != 1:
+            j = next(i for i in range(1, len(outs)) if outs[i] != outs[0])
+            fails.append(dict(kind="counterexample", case=l, impl=outs[j][:1500], model=outs[0][:1500], op=op, size=len(l), build="relaxfill-poison", site=site(l),
+                              input_class="larger-fill",
+                              theorem="C10: the constructed relaxation depends on what fresh / released heap blocks hold (sweep results differ bitwise, heap fill %s vs %s): "
+                                      "a never-written cell or a released block (dangling pointer / reference) is read" % (RF_FILLS[j], RF_FILLS[0])))
+    env = {"ASAN_OPTIONS": "detect_leaks=1:abort_on_error=0", "UBSAN_OPTIONS": "print_stacktrace=1"}
+    san = complete("relaxfill@asan", env, ctx["run_driver"](ctx["cpp"]["relaxfill@asan"], lines, env_extra=env, shards=16, timeout=1500))
+    seen = set(f["case"] for f in fails)
+    for l in lines:
+        cid, op = l.split(" ", 2)[:2]
+        o = san.get(cid)
+        ctx["stats"]["oracle_checks"] += 1
+        if o is None or o.startswith(("CRASH", "UNSUPPORTED", "EXC")):
+            fails.append(dict(kind="counterexample", case=l, impl=o, model=None, op=op, size=len(l), build="relaxfill-asan", site=site(l), input_class="larger-fill",
+                              theorem="C10: AddressSanitizer/UBSan report or crash in a relaxation constructor / sweep on a valid SPD matrix"))
+    return fails
+
+def _is_rf(l): return l.split(" ", 2)[1:2] == ["rf"]
+
 def _is_ub(l): return l.split(" ", 2)[1:2] and l.split(" ", 2)[1].startswith("ub_")
 
 def _is_ll2(l): return l.split(" ", 2)[1:2] and l.split(" ", 2)[1].startswith(("ll_", "lld_"))
@@ -452,10 +566,14 @@ def run(ctx, cases_override=None):
     ub_override = [l for l in (cases_override or []) if _is_ub(l)]
     if cases_override and len(ub_override) == len(cases_override):
         return run_ub(ctx, ub_override)
+    rf_override = [l for l in (cases_override or []) if _is_rf(l)]
+    if cases_override and len(rf_override) == len(cases_override):
+        return run_rf(ctx, rf_override)
     own_fails = [] if cases_override else run_own(ctx, own_cases(ctx["tier"], ctx["seed"]))
     ll2_fails = [] if cases_override else run_ll2(ctx, ll2_cases(ctx["tier"], ctx["seed"]))
     ub_fails = [] if cases_override else run_ub(ctx, ub_cases(ctx["tier"], ctx["seed"]))
-    return own_fails + ll2_fails + ub_fails + run_amg(ctx, cases_override)
+    rf_fails = [] if cases_override else run_rf(ctx, rf_cases(ctx["tier"], ctx["seed"]))
+    return own_fails + ll2_fails + ub_fails + rf_fails + run_amg(ctx, cases_override)
 
 def run_amg(ctx, cases_override=None):
     cases = make_cases(ctx["tier"], ctx["seed"])
